@@ -230,11 +230,11 @@ func (b *brokerCore) liveIDs() []int {
 }
 
 // barrier sends a PINGREQ on c and waits for its PINGRESP (or EOF).  Returns
-// false on timeout.  If no answer arrives quickly the PINGREQ is repeated once:
-// the ring's consumer can miss the wake-up for the last packet written
-// (service/buffer.go ReadWait tests a cursor loaded before it took the lock —
-// defect D4, property C15's subject); a further packet wakes it.  Repeats are
-// counted and reported on stderr, they are not hidden from C15's own check.
+// false on timeout.  If no answer arrives within 1.5 s the PINGREQ is repeated once
+// and the connection's output gets a STALLED item: before the repair of defect D4
+// (service/buffer.go ReadWait tested a cursor loaded before it took the lock) the
+// ring's consumer could miss the wake-up for the last packet written and a further
+// packet was needed to wake it — with D4 repaired no repeat occurs.
 func (b *brokerCore) barrier(c *rawClient) bool {
 	ping := func() (int, error) {
 		c.mu.Lock()
@@ -248,10 +248,15 @@ func (b *brokerCore) barrier(c *rawClient) bool {
 		// closed (or stuck): wait for EOF
 		return c.waitUntil(func() bool { return c.eof }, brokerWait)
 	}
-	if c.waitUntil(func() bool { return c.pongs >= want || c.eof }, 300*time.Millisecond) {
+	if c.waitUntil(func() bool { return c.pongs >= want || c.eof }, 1500*time.Millisecond) {
 		return true
 	}
+	// a packet that sits in the incoming ring unprocessed until more traffic arrives is a lost
+	// wake-up (C15); it is made visible in this connection's output and the PINGREQ is repeated
 	atomic.AddInt64(&barrierRepeats, 1)
+	c.mu.Lock()
+	c.items = append(c.items, "STALLED")
+	c.mu.Unlock()
 	want, err = ping()
 	if err != nil {
 		return c.waitUntil(func() bool { return c.eof }, brokerWait)
